@@ -394,27 +394,89 @@ def _variant(rng, tmpl, j, idx):
 
 
 RECURSIVE_XSD = ('<xs:schema xmlns:xs="http://www.w3.org/2001/XMLSchema"><xs:complexType name="S"><xs:sequence>'
-                 '<xs:element name="s" type="S" minOccurs="0" maxOccurs="unbounded"><xs:unique name="U"><xs:selector xpath="e"/>'
-                 '<xs:field xpath="@n"/></xs:unique></xs:element>'
-                 '<xs:element name="e" minOccurs="0" maxOccurs="unbounded"><xs:complexType><xs:attribute name="n" type="xs:int"/>'
-                 '</xs:complexType></xs:element></xs:sequence></xs:complexType><xs:element name="root" type="S"/></xs:schema>')
+                 '<xs:element name="s" type="S" minOccurs="0" maxOccurs="unbounded"><xs:unique name="U"><xs:selector xpath="u"/>'
+                 '<xs:field xpath="@n"/></xs:unique><xs:key name="K"><xs:selector xpath="e"/><xs:field xpath="@n"/></xs:key>'
+                 '<xs:keyref name="R" refer="K"><xs:selector xpath="r"/><xs:field xpath="@n"/></xs:keyref></xs:element>'
+                 + ''.join('<xs:element name="%s" minOccurs="0" maxOccurs="unbounded"><xs:complexType><xs:attribute name="n" type="xs:int"/>'
+                           '</xs:complexType></xs:element>' % t for t in 'eur') +
+                 '</xs:sequence></xs:complexType><xs:element name="root" type="S"/></xs:schema>')
 RECURSIVE_DOCS = ['<root><s><s><e n="5"/></s><e n="1"/><e n="1"/></s></root>',      # duplicates after a nested scope instance
-                  '<root><s><e n="1"/><e n="1"/><s><e n="5"/></s></s></root>']      # duplicates before it (detected)
+                  '<root><s><e n="1"/><e n="1"/></s></root>']                          # (no nesting)
+
+
+def gen_scope(rng, depth):
+    """a scope instance <s>: nested instances first (content model (s*, e*, u*, r*)), then its own key / unique / keyref rows"""
+    kids = [gen_scope(rng, depth + 1) for _ in range(rng.choice([0, 0, 1, 1, 2]) if depth < 3 else 0)]
+    vals = lambda n: [rng.choice([1, 1, 2, 3]) for _ in range(n)]      # noqa: E731
+    return {'kids': kids, 'e': vals(rng.choice([0, 1, 2, 3])), 'u': vals(rng.choice([0, 1, 2])), 'r': vals(rng.choice([0, 1, 2]))}
+
+
+def render_scope(sc):
+    return '<s>%s%s</s>' % (''.join(render_scope(k) for k in sc['kids']),
+                            ''.join('<%s n="%s"/>' % (t, v) for t in 'eur' for v in sc[t]))
+
+
+def flat_scopes(sc):
+    out = [sc]
+    for k in sc['kids']:
+        out += flat_scopes(k)
+    return out
+
+
+def subject_recursive(case):
+    import xmlschema
+    key = 'rec' + case['version']
+    if key not in _SCHEMAS:
+        _SCHEMAS[key] = (xmlschema.XMLSchema11 if case['version'] == '1.1' else xmlschema.XMLSchema10)(RECURSIVE_XSD)
+    s = _SCHEMAS[key]
+    try:
+        errs = [str(e.reason or '') for e in s.iter_errors(case['xml'])]
+        return {'valid': s.is_valid(case['xml']), 'dup': sum('duplicated value' in r for r in errs),
+                'dangling': sum('not found for' in r for r in errs), 'other': [r[:100] for r in errs if 'duplicated value' not in r and 'not found for' not in r]}
+    except Exception as e:  # noqa
+        return {'exc': common.exc_class(e) + ': ' + str(e)[:160]}
 
 
 def check_recursive_scope(ctx):
-    """F-C08b: a unique constraint on a recursively nested element; the inner scope instance shares the counter"""
-    import xmlschema
-    for version, cls in (('1.0', xmlschema.XMLSchema10), ('1.1', xmlschema.XMLSchema11)):
-        s = cls(RECURSIVE_XSD)
-        for d in RECURSIVE_DOCS:
-            ctx.count(('recursive', version, d), nontrivial=True)
-            if s.is_valid(d):
-                if d == RECURSIVE_DOCS[0]:
-                    ctx.known_finding('F-C08b')
-                else:
-                    ctx.violation('%s is accepted although two selected nodes of U have the same field value (XSD %s)' % (d, version),
-                                  {'kind': 'recursive', 'xml': d, 'xsd': RECURSIVE_XSD, 'version': version})
+    """an element that can contain itself declares unique / key / keyref: every instance of the element is a scope of its
+    own (C08_scope_independent); fixed 8cf8a00 (was finding F-C08b)"""
+    rng = ctx.rng
+    cases = []
+    for i in range(60 if ctx.quick() else 1500):
+        tops = [gen_scope(rng, 1) for _ in range(rng.choice([1, 1, 2]))]
+        cases.append({'version': '1.1' if i % 2 else '1.0', 'tops': tops, 'xml': '<root>%s</root>' % ''.join(render_scope(t) for t in tops)})
+    for d in RECURSIVE_DOCS:
+        cases.append({'version': '1.0', 'tops': None, 'xml': d, 'want_invalid': True})
+    impl = common.pool_map(subject_recursive, cases)
+    gen_cases = [c for c in cases if c['tops'] is not None]
+    terms = []
+    for c in gen_cases:
+        scopes = [x for t in c['tops'] for x in flat_scopes(t)]
+        terms.append('(let errs := doc_errors %s in (length (filter (fun e => match e with Dup _ => true | _ => false end) errs), '
+                     'length (filter (fun e => match e with Dangling _ => true | _ => false end) errs)))'
+                     % coq_list(['{| s_key := %s; s_unique := %s; s_keyref := %s |}' % tuple(
+                         coq_list([coq_tuple([v]) for v in x[t]]) for t in 'eur') for x in scopes]))
+    model = iter(common.coq_eval('C08r', IMPORTS, '', terms, shard=200))
+    for c, o in zip(cases, impl):
+        rep = {'kind': 'recursive', 'xml': c['xml'], 'xsd': RECURSIVE_XSD, 'version': c['version'], 'impl': o}
+        ctx.count(('recursive', c['version'], c['xml']), nontrivial=True)
+        if 'exc' in o or 'harness_exception' in o:
+            ctx.violation('recursive scopes: validation raised %s for %s' % (o.get('exc') or o.get('harness_exception'), c['xml']), rep)
+            continue
+        if c['tops'] is None:
+            if o['valid']:
+                ctx.violation('%s is accepted although two selected nodes of K have the same field value' % c['xml'], rep)
+            continue
+        ndup, ndang = next(model)
+        depth = max(len(flat_scopes(t)) for t in c['tops'])
+        ctx.dist('recursive scopes', 'instances per top-level scope: %s, model %s' % (min(depth, 4), 'valid' if (ndup, ndang) == (0, 0) else 'invalid'))
+        if o['valid'] != ((ndup, ndang) == (0, 0)) or o['other']:
+            ctx.violation('nested instances of a scope element: %s is %s, per-instance tables say %s (%d duplicates, %d dangling references)%s'
+                          % (c['xml'], 'accepted' if o['valid'] else 'rejected', 'valid' if (ndup, ndang) == (0, 0) else 'invalid', ndup, ndang,
+                             '; unexpected errors %s' % o['other'][:2] if o['other'] else ''), dict(rep, theorem='C08_scope_independent'))
+        elif (o['dup'], o['dangling']) != (ndup, ndang):
+            ctx.violation('nested instances of a scope element: %s: error counts (duplicate, dangling) impl=%s model=%s'
+                          % (c['xml'], (o['dup'], o['dangling']), (ndup, ndang)), dict(rep, theorem='C08_scope_independent'), no_input=True)
 
 
 def run(ctx):
